@@ -75,7 +75,7 @@ def doWrite (st : St) (addrs : Except Err (List Int)) (vals : List Int) (isBin :
       let new := (slots.zip vals).foldl (fun (arr : Array Int) (kv : Int × Int) => arr.set! kv.1.toNat kv.2) st.store
       let touched := ((slots.map Int.toNat).toArray.qsort (· < ·)).toList.eraseDups
       let changed := touched.filter fun (k : Nat) => new[k]! ≠ st.store[k]!
-      let cs := changed.foldl (fun (acc : Int) (k : Nat) => (acc + (((k : Int) + 1) % modulus) * ((new[k]! + 3) % modulus)) % modulus) 0
+      let cs := changed.foldl (fun (acc : Int) (k : Nat) => (acc + (((k : Int) + 1) % modulus) * ((new[k]! + 1000) % modulus)) % modulus) 0
       let fileBacked := st.backing == "fs" || st.backing == "if"
       let flushed := !(isBin && !st.fb)        -- `flushes`: every set_* but set_bin_value (flag from the harness' probe)
       let vis := if fileBacked then (if flushed || changed.isEmpty then " vis=1" else " vis=0") else ""
